@@ -1,16 +1,17 @@
 SPECIFICATION Spec
 CHECK_DEADLOCK FALSE
+
 INVARIANTS PlanOut
 CONSTANTS
-  Streams <- StreamsAB
-  Script <- ScriptS2
+  Streams <- Streams2H
+  Script <- Script2H
   Floor = 0
   AtomicSend = FALSE
   TickFix = TRUE
   SwallowAllowed = FALSE
-  Seek <- SeekNone
-  CollOf <- CollOf3
+  Seek <- Seek2H
+  CollOf <- CollOf2H
   JoinLifts = TRUE
   StartAllFirst = FALSE
-  PChanOf <- PChanSame
+  PChanOf <- PChan2H
   InitRaises = TRUE
